@@ -291,18 +291,38 @@ def random_trace(rep, base, nhist):
                 hs.append({"call": "add_type_item", "fam": rng.choice(["zorps", "zorps", "zorps", "blips"]), "item": rng.choice(items)})
             else:
                 hs.append({"call": "execute", "line": rng.choice(lines)})
-        cases.append({"id": "r%d" % hi, "cfg": CFG, "fresh": True, "want": ["ui"], "steps": [step_of(h) for h in hs]})
+        steps = [step_of(h) for h in hs]
+        case = {"id": "r%d" % hi, "cfg": CFG, "fresh": True, "want": ["ui"], "steps": steps}
+        if hi % 3 == 2:
+            # every third history: two calculators alive in the process, each call made on one of them - rules and families
+            # registered on one are unknown to the other
+            case["two"] = True
+            on = 1
+            for h, s_ in zip(hs, steps):
+                if rng.random() < 0.3:
+                    on = 3 - on
+                h["calc"] = on
+                if on == 2:
+                    s_["calc"] = 2
+        cases.append(case)
         metas.append(hs)
     obs = run_harness_stable_day(cases, "c18.rand", jobs=8)
     events, index = [], []
     for case, hs, o in zip(cases, metas, obs):
-        events.append(reset_event(CFG, o.get("day0", 0)))
+        events.append(reset_event(CFG, o.get("day0", 0), extra={"two": True} if case.get("two") else None))
         index.append(None)
         steps = o.get("steps") or []
+        on = 1
         for k, h in enumerate(hs):
             st = steps[k] if k < len(steps) else o
             if st.get("outcome") == "skipped":
                 break          # the calculator is gone after a panic (reported at the step that raised it)
+            if st.get("outcome") == "toolerror":
+                raise ToolError("c18.rand: %s" % st)
+            if h.get("calc", 1) != on:
+                events.append({"ev": "switch", "from": on, "to": h["calc"]})
+                index.append(None)
+                on = h["calc"]
             ret = ("true" if st.get("ret") else "false") if st.get("outcome") == "returned" else "panic"
             if h["call"] == "add_rule":
                 e = {"ev": "add_rule", "lang": h["lang"], "name": h["r"]["name"], "pats": sorted(h["r"]["pats"]), "beh": h["r"]["beh"], "ret": ret}
